@@ -22,6 +22,15 @@ def run(tier, seed):
         # the same plasmid in a plain SeqRecord (circular by annotation, or by default): origin at the marked places
         for k in rng.sample(ks, min(len(ks), 2 if q else 8)):
             recipes.append({"fn": "typing", "cls": cspec, "seq": s, "plain": rng.choice(["circular", "upper", "absent"]), "twin": {"by": "rot", "k": k}})
+        # a third site of the enzyme in the BACKBONE of a module plasmid (behind the structure, outside the matched stretch): legal
+        # for a signature-typed class as long as it does not form a second structure; the origin far from the structure
+        cls0 = __import__("harness.classes", fromlist=["x"]).build(cspec)
+        if __import__("harness.classes", fromlist=["x"]).role_of(cls0) == "module":
+            site0 = str(cls0.cutter.site)
+            s3 = s + gen.rnd(rng.randint(2, 5), rng) + rng.choice([site0, __import__("harness.dna", fromlist=["x"]).rc(site0)]) + gen.rnd(rng.randint(2, 6), rng)
+            n3 = len(s3)
+            for k in rng.sample(range(n3), 3 if q else 10):
+                recipes.append({"fn": "typing", "cls": cspec, "seq": s3, "twin": {"by": "rot", "k": k, "via": "api"}})
         # records with several matches / mutated ones are judged too (precondition evaluated by the spec)
         s2 = gen.mutate(s, rng)
         recipes.append({"fn": "typing", "cls": cspec, "seq": s2, "twin": {"by": "rot", "k": rng.randrange(1, n), "via": "api"}})
